@@ -33,6 +33,8 @@ enum Ent {
 enum Kind {
     Counter,
     Bundle(u8),
+    /// empty vector that never allocated (capacity 0)
+    VecEmpty,
     VecU,
     VecT,
     Slice,
@@ -83,10 +85,10 @@ impl Sut {
     fn enabled(&self, kinds: &[Kind]) -> Vec<Op> {
         let mut v = Vec::new();
         if kinds.len() < self.max_pool {
-            for k in [Kind::Counter, Kind::Bundle(0), Kind::Bundle(1), Kind::Bundle(2), Kind::Bundle(3), Kind::VecU, Kind::VecT, Kind::Slice, Kind::Boxed, Kind::Arc] {
+            for k in [Kind::Counter, Kind::Bundle(0), Kind::Bundle(1), Kind::Bundle(2), Kind::Bundle(3), Kind::VecEmpty, Kind::VecU, Kind::VecT, Kind::Slice, Kind::Boxed, Kind::Arc] {
                 v.push(Op::CreateP(k));
             }
-            for k in [Kind::Counter, Kind::Bundle(3), Kind::VecU, Kind::VecT, Kind::Slice, Kind::Boxed, Kind::Arc] {
+            for k in [Kind::Counter, Kind::Bundle(3), Kind::VecEmpty, Kind::VecU, Kind::VecT, Kind::Slice, Kind::Boxed, Kind::Arc] {
                 v.push(Op::CreateH(k));
             }
         }
@@ -112,7 +114,7 @@ impl Sut {
                         v.push(Op::Hand(i, s));
                     }
                 }
-                Kind::VecU => {
+                Kind::VecU | Kind::VecEmpty => {
                     for s in [0u32, 0b01, 0b1001, 0b11, 0b100111] {
                         v.push(Op::Hand(i, s));
                     }
@@ -161,6 +163,7 @@ impl Sut {
                     let e = match k {
                         Kind::Counter => Ent::Counter((a.make_counter)(val, mk_ctx(&arc))),
                         Kind::Bundle(m) => Ent::Bundle((a.make_bundle)(val, mk_ctx(&arc), m as u32)),
+                        Kind::VecEmpty => Ent::VecU((a.make_vec)(0, 0)),
                         Kind::VecU => Ent::VecU((a.make_vec)(3, if val % 20 == 0 { 0 } else { 2 })),
                         Kind::VecT => Ent::VecT((a.make_vec_tracked)(2)),
                         Kind::Slice => Ent::Slice((a.make_slicebox)(2)),
@@ -200,7 +203,21 @@ impl Sut {
                     }
                     Ent::Slice(s) => digest(&s.iter().map(|t| t.val).collect::<Vec<_>>()),
                     Ent::Boxed(b) => b.val,
-                    Ent::Arc(a) => a.as_ref().map(|t| t.val).unwrap_or(0),
+                    Ent::Arc(a) => {
+                        // round trip through the non-optional form: the handle must keep the functions of its creator
+                        let taken = a.take();
+                        let v0 = taken.as_ref().map(|t| t.val).unwrap_or(0);
+                        let some = match taken.transpose() {
+                            Some(s) => s,
+                            None => return Err(("xmod:arc_transpose".into(), at("transpose of a non-empty CArc gave None"))),
+                        };
+                        let c = some.clone();
+                        let back = some.transpose();
+                        let v1 = c.val;
+                        drop(c);
+                        *a = back;
+                        digest(&(v0, v1, a.as_ref().map(|t| t.val)))
+                    }
                 },
                 Op::Clone(i) => {
                     let (e, k) = match &ents[i] {
